@@ -7,6 +7,7 @@ import (
 	"sort"
 	"strings"
 
+	"github.com/tableauio/tableau/options"
 	"github.com/tableauio/tableau/verifhook"
 )
 
@@ -161,18 +162,21 @@ func init() {
 	// old outputs vs. a fresh full run on version 2: same files, byte for byte; inputs untouched; stale top-level
 	// proto removed only by the full run, files in sub-directories and imports never.
 	regStream("e2e.C18.incremental", func(r *rand.Rand, n int, emit func(string, ...string)) {
-		books := []string{"Item", "Hero", "ZoneA", "ZoneB", "Shared"}
+		books := []string{"Item", "Hero", "ZoneA", "ZoneB", "Shared", "Twins"}
 		kinds := []string{"data", "shrink", "grow"}
 		for i := 0; i < n; i++ {
 			b := books[i%len(books)]
 			k := kinds[(i/len(books))%len(kinds)]
-			if b == "Shared" || strings.HasPrefix(b, "Zone") {
+			if b == "Shared" || b == "Twins" || strings.HasPrefix(b, "Zone") {
 				k = "data" // a merger source has no schema of its own; the merged sheets share their columns with it
 			}
 			emit("c18.incr", b, k)
 		}
 	})
 	regImpl("c18.incr", func(a []string) string {
+		if a[0] == "Twins" {
+			return runC18Twins()
+		}
 		edited := a[0]
 		kind := "data"
 		if len(a) > 1 {
@@ -258,4 +262,46 @@ func init() {
 		sort.Strings(diffs)
 		return "differ " + strings.Join(diffs, ",")
 	})
+}
+
+// runC18Twins: two workbooks of one name in different sub-directories (legal with FilenameWithSubdirPrefix); an
+// incremental protogen + confgen run naming sheet files of both must write what the full run writes.
+func runC18Twins() string {
+	tree := func(w *workspace) {
+		sheet := func(name string, ids ...int) sheetSpec {
+			rows := [][]string{{"ID", "Name"}, {"map<uint32, " + name + "Item>", "string"}, {"id", "name"}}
+			for _, id := range ids {
+				rows = append(rows, []string{itoa(int64(id)), "n" + itoa(int64(id))})
+			}
+			return sheetSpec{Name: name, Rows: rows}
+		}
+		w.writeCSVBook("a", bookSpec{Name: "Item", Sheets: []sheetSpec{sheet("HeroConf", 1, 2)}})
+		w.writeCSVBook("b", bookSpec{Name: "Item", Sheets: []sheetSpec{sheet("PetConf", 3)}})
+		w.writeCSVBook("", bookSpec{Name: "Other", Sheets: []sheetSpec{sheet("OtherConf", 9)}})
+	}
+	ro := runOpts{ProtoOut: &options.ProtoOutputOption{FilenameWithSubdirPrefix: true}}
+	full, incr := newWorkspace(), newWorkspace()
+	defer full.cleanup()
+	defer incr.cleanup()
+	tree(full)
+	tree(incr)
+	if err := full.genProto(ro); err != nil {
+		return "err full-proto " + errCode(err)
+	}
+	if err := full.genConf(ro); err != nil {
+		return "err full-conf " + errCode(err)
+	}
+	paths := []string{"a/Item#HeroConf.csv", "b/Item#PetConf.csv", "Other#OtherConf.csv"}
+	if err := incr.genProto(ro, paths...); err != nil {
+		return "err incr-proto " + errCode(err)
+	}
+	if err := incr.genConf(ro, paths...); err != nil {
+		return "err incr-conf " + errCode(err)
+	}
+	f := snapString(snapshot(full.Proto)) + "|" + snapString(snapshot(full.Conf))
+	i := snapString(snapshot(incr.Proto)) + "|" + snapString(snapshot(incr.Conf))
+	if f == i {
+		return "same"
+	}
+	return "differ twins"
 }
